@@ -155,8 +155,6 @@ def obligations(tier):
     obs = []
     for t in ("f_leaf", "f_mid", "f_range", "f_cse", "f_unknown", "f_captured"):
         for cycles in (False, True):
-            if cycles and t in ("f_range", "f_cse"):
-                continue    # iterative mode caches range values for ever (known finding C06-iter-range-cache, asserted in C06)
             for ei in ((0, 1) if tier == "quick" else (0, 1, 2, 3)):
                 obs.append(Obligation(PROP, f"fail[{t},{'iter' if cycles else 'plain'},{EXCS[ei].__name__}]", __name__, "ob_fail",
                                       (t, cycles, ei, False), timeout=300, float_mode="real", group=t))
